@@ -197,6 +197,14 @@ fcache_get_read(struct fcache *fc, struct fcache_entry *fce,
 	size_t off;
 
 	blkpos = pos & ~(off_t)(fc->pgsz - 1);
+
+	/* A block that lies wholly beyond end of file has no content.
+	 * Only the very first block is always zero-padded, so that a file
+	 * shorter than a format header can still be probed.
+	 */
+	if (blkpos > 0 && blkpos >= fc->info[fidx].filesz)
+		return KDUMP_ERR_EOF;
+
 	ce = cache_get_entry(fc->fbcache, blkpos | fidx);
 	if (!ce)
 		return KDUMP_ERR_BUSY;
